@@ -211,6 +211,7 @@ class _Tree:
     def __init__(self, rnd: random.Random) -> None:
         self.rnd = rnd
         self.files: dict[str, FileSpec] = {}
+        self.sibling_data_dirs = False
 
     def add(self, path: str, data: bytes, mode: int = 0o644) -> str:
         if path not in self.files and not any(p.startswith(path + "/") or path.startswith(p + "/") for p in self.files):
@@ -239,8 +240,10 @@ class _Tree:
                 self.add(f"{base}/__pycache__/{rnd.choice(WORDS)}.cpython-312.pyc", blob(rnd))
             if rnd.random() < 0.08:
                 self.add(f"{base}/{rnd.choice(WORDS)}.pyc", blob(rnd))
-            if rnd.random() < 0.25:   # data-only directory
-                d = f"{base}/{rnd.choice(['data', 'templates', 'static'])}"
+            # data-only directories (no .py inside): one sometimes, several siblings when asked for
+            want_dirs = rnd.randint(2, 4) if (self.sibling_data_dirs and depth == 0) else (1 if rnd.random() < 0.25 else 0)
+            for d0 in rnd.sample(["data", "templates", "static", "assets", "locale", "Zeta", "_private", "données"], want_dirs):
+                d = f"{base}/{d0}"
                 for _ in range(rnd.randint(1, 3)):
                     self.add(f"{d}/{fname(rnd, rnd.choice(['.html', '.dat', '.tmp']))}", blob(rnd))
                 if rnd.random() < 0.3:
@@ -272,6 +275,8 @@ def generate(rnd: random.Random, want: set[str] | None = None) -> Project:
     feats += [f"style:{style}", f"layout:{layout}"]
     mod = module_name(name)
     t = _Tree(rnd)
+    generate_setup = rnd.random() < 0.4 or "setup-file" in want
+    t.sibling_data_dirs = generate_setup or rnd.random() < 0.15
     tool: dict[str, Any] = {}
     packages: list[dict[str, Any]] = []
     pkg_dirs: list[str] = []   # project-relative directories holding package code (for exclude patterns)
@@ -305,7 +310,7 @@ def generate(rnd: random.Random, want: set[str] | None = None) -> Project:
             used.add(pk)
             e = {"include": pk}
             kind = rnd.random()
-            frm = rnd.choice(["lib", "src", "python/code"]) if rnd.random() < 0.5 else None
+            frm = rnd.choice(["lib", "src", "python/code", "quelltext-üñî", "исходники/код"]) if rnd.random() < 0.5 else None
             base = f"{frm}/{pk}" if frm else pk
             if kind < 0.25:  # single module
                 e["include"] = pk + ".py"
@@ -341,6 +346,9 @@ def generate(rnd: random.Random, want: set[str] | None = None) -> Project:
             packages.insert(rnd.randint(0, len(packages)), {"include": pk})
     if packages:
         tool["packages"] = packages
+    if generate_setup:
+        tool["build"] = {"generate-setup-file": True}    # no build script: stays pure Python, nothing is executed
+        feats.append("generate-setup-file")
 
     # ---- readme, licences ---------------------------------------------------------------
     readme = None
@@ -526,7 +534,12 @@ def generate(rnd: random.Random, want: set[str] | None = None) -> Project:
         feats.append("name-normalised")
     files = list(t.files.values())
     rnd.shuffle(files)
-    meta = {"module": mod, "layout": layout, "packages": packages, "include": includes, "exclude": excludes,
+    root_dirname = rnd.choice(["proj", "proj", "projet-é ü", "工程-пакет", "Ünï"])
+    if not root_dirname.isascii():
+        feats.append("root-non-ascii")
+    if any(not str(e.get("from", "")).isascii() for e in packages):
+        feats.append("from-non-ascii")
+    meta = {"root_dirname": root_dirname, "generate_setup": generate_setup, "module": mod, "layout": layout, "packages": packages, "include": includes, "exclude": excludes,
             "console": console, "gui": gui, "groups": groups, "file_scripts": file_scripts, "python": python,
             "extras": extras, "deps": deps, "optional": optional, "readme": readme, "pkg_dirs": pkg_dirs}
     return Project(name, version, style, pyproject, files, config, sorted(set(feats)), meta)
